@@ -12,6 +12,8 @@ import glob, json, os, re, shutil, subprocess, sys, time
 ENV = dict(os.environ, PATH="/opt/veriftools/go1.26.8/bin:" + os.environ["PATH"], GOFLAGS="-mod=mod", GOPROXY="off",
            GOSUMDB="off", GOTOOLCHAIN="local")
 WT = "/tmp/scratch/confirm_wt"
+MUT = os.environ.get("MUT_DIR", "/tmp/mut")      # where the sub-agents left their work
+TAG = os.environ.get("MUT_TAG", "")              # e.g. "r2": names become <ID>-r2m<k>
 OUT = "/verif/seeded"
 
 
@@ -33,16 +35,16 @@ def main():
     head = subprocess.check_output(["git", "-C", "/repo", "rev-parse", "--short", "HEAD"]).decode().strip()
     summary = []
     try:
-        for patch in sorted(glob.glob("/tmp/mut/C*/out/m*.patch")):
-            pid = patch.split("/")[3]
+        for patch in sorted(glob.glob(MUT + "/C*/out/m*.patch")):
+            pid = patch[len(MUT):].split("/")[1]
             k = os.path.basename(patch)[:-6]
-            if ids and pid not in ids and (pid + "-" + k) not in ids:
+            if ids and pid not in ids and (pid + "-" + TAG + k) not in ids:
                 continue
-            name = "%s-%s" % (pid, k)
-            adapted = "/tmp/mut/adapted/%s_%s.patch" % (pid, k)
+            name = "%s-%s%s" % (pid, TAG, k)
+            adapted = MUT + "/adapted/%s_%s.patch" % (pid, k)
             src = adapted if os.path.exists(adapted) else patch
-            demos = glob.glob("/tmp/mut/%s/out/%s_demo*" % (pid, k))
-            md = "/tmp/mut/%s/out/%s.md" % (pid, k)
+            demos = glob.glob(MUT + "/%s/out/%s_demo*" % (pid, k))
+            md = MUT + "/%s/out/%s.md" % (pid, k)
             res = {"id": name, "property": pid, "patch_source": src, "base_commit": head}
             if not demos:
                 res["status"] = "no demo"
